@@ -7,7 +7,7 @@ ROOT = os.path.dirname(os.path.dirname(os.path.abspath(__file__)))
 CLAIMED = {
  "C02": dict(
    technique="stateless exploration of real code from identical cold process states: BFS over compilation histories, preemption-bounded enumeration of thread schedules at hooked shared-state accesses, enumeration of hash seeds through getrandom interposition; oracle = fresh-process result",
-   text="Every execution runs in a child forked from a cold single-threaded zygote. History: all pairs over a 19-program alphabet (two of them the same source and files under different load paths) and all triples (thorough: 4-sequences) over a 7-program core, every position compared with the fresh-process result; every corpus program after 3 (thorough 14) alphabet programs on the same thread and repeated. Schedule: 2 (thorough 3) threads compiling programs that collide on the interner and the two global counters, all schedules with <= 1 preemption for every unordered pair of a 6-program alphabet, <= 2 (thorough 3) for the identifier pair, scheduling points = the three hook sites; replay divergence is a hard error. Hash seeds: every alphabet and corpus program under 6 (thorough 64) seeds. unique-id(): 1..64 calls distinct and valid.",
+   text="Every execution runs in a child forked from a cold single-threaded zygote. History: all pairs over a 19-program alphabet (two of them the same source and files under different load paths) and all triples over a 7-program core (thorough: all triples over the alphabet and all 4-sequences over the core), every position compared with the fresh-process result; every corpus program after 3 (thorough 8) alphabet programs on the same thread and repeated. Schedule: 2 (thorough 3) threads compiling programs that collide on the interner and the two global counters, all schedules with <= 1 preemption for every unordered pair of a 6-program alphabet, <= 2 (thorough 3) for the identifier pair (thorough: <= 2 for the extend pair, two 3-thread groups with <= 1), scheduling points = the three hook sites; replay divergence is a hard error. Hash seeds: every alphabet and corpus program under 6 (thorough 24) seeds. unique-id(): 1..64 calls distinct and valid.",
    note="Sequential consistency between scheduling points (the hooks cover every access to process- or thread-global mutable state; once_cell initialisation is warmed up before the hook is installed). Seeds are a finite alphabet, not the 2^128 key space; allocation-address dependent behaviour (pointer hashing) is only reachable through the seed/history repetitions, not enumerated. unique-id distinctness rests on the RNG.",
    design="§3 C02, §2"),
  "C05": dict(
@@ -94,7 +94,7 @@ CLAIMED = {
    design="§3 C12"),
  "C16": dict(
    technique="exhaustive enumeration of calc()/min/max/clamp expression trees to depth 2 over typed leaves x 4 spellings; symbolic unit-vector typing oracle and numeric evaluation in three unit environments",
-   text="All trees of depth <= 1 over 11 leaves and of depth <= 2 over 6 (thorough 8) leaves x {minimal parentheses, full parentheses, operands through variables, relative operands interpolated} (1.1M cases): the expression is rejected exactly when its typing is ill-formed (sum of incompatible known units, product with two dimensions, ...); otherwise the emitted value - a number or a simplified calc - evaluates to the same quantity as the source expression in three environments assigning lengths to relative units; fully numeric expressions fold to a plain number; min/max/clamp pick the right operand including across convertible units; outputs are stable under re-compilation.",
+   text="All trees of depth <= 1 over 11 leaves and of depth <= 2 over 6 (thorough all 11) leaves x {minimal parentheses, full parentheses, operands through variables, relative operands interpolated} (1.1M cases): the expression is rejected exactly when its typing is ill-formed (sum of incompatible known units, product with two dimensions, ...); otherwise the emitted value - a number or a simplified calc - evaluates to the same quantity as the source expression in three environments assigning lengths to relative units; fully numeric expressions fold to a plain number; min/max/clamp pick the right operand including across convertible units; outputs are stable under re-compilation.",
    note="A percentage is treated as a length in the environments; cases whose typing depends on what a percentage stands for, and division by zero, are skipped. Interpolated operands are opaque text (kept, not typed).",
    design="§3 C16"),
  "C19": dict(
